@@ -122,6 +122,12 @@ def transpile_token(
                 temp += char
         return indent_str(f'stack.append("{temp}")', indent)
     elif token.name == TokenType.NUMBER:
+        if "°" not in token.value and "." in token.value and token.value != ".":
+            # a plain decimal literal denotes exactly digits / 10^k; nsimplify
+            # would turn e.g. 1.41421356237 into sqrt(2)
+            return indent_str(
+                f'stack.append(sympy.Rational("{token.value}"))', indent
+            )
         parts = [
             "0.5" if part == "." else part for part in token.value.split("°")
         ]
